@@ -264,7 +264,27 @@ def literal_program(L):
                 if guard:
                     st = f'if ({guard}) {{ {st} }} else {{ write(\'z\'); }}'
                 body.append(f'{{ {st} }} write(\' \');')
+    if L in (0, 1):
+        # and / or with a constant operand on either side, over int, byte and bool run-time operands, as value, branch and defeat
+        k = 'true' if L else 'false'
+        for op in ('and', 'or'):
+            for x in ('a', '(a is byte)', '(a is bool)', '(a > 3)'):
+                for e in (f'{x} {op} {k}', f'{k} {op} {x}', f'{x} {op} {L}', f'not ({x} {op} {k})'):
+                    body.append(f"if ({e}) {{ write('T'); }} else {{ write('F'); }} bool lr{len(body)} = {e}; write(lr{len(body)} is int); "
+                                f"try {{ !truth_is_defeat({e}); write('F'); }} undo {{ write('T'); }} write(' ');")
     return 'empty @is_you(const int[] v) {\n  for (int i = 0; i < v.length; i += 1) {\n    int a = v[i];\n    ' + '\n    '.join(body) + '\n    writeln();\n  }\n}\n'
+
+
+def literal_logic_expected(a0, L):
+    out = bytearray()
+    for op in ('and', 'or'):
+        for x in (a0 != 0, (a0 & 0xFF) != 0, a0 != 0, a0 > 3):
+            for neg in (False, False, False, True):
+                r = (x and bool(L)) if op == 'and' else (x or bool(L))
+                if neg:
+                    r = not r
+                out += fmt(r) + (b'1' if r else b'0') + fmt(r) + b' '
+    return bytes(out)
 
 
 def literal_expected(sem, vals, L):
@@ -280,6 +300,8 @@ def literal_expected(sem, vals, L):
                         continue
                     v = sem.binop(op, l, r)
                     out += (fmt(v) if op in ARITH else fmt(bool(v)) + (b'1' if v else b'0')) + b' '
+        if L in (0, 1):
+            out += literal_logic_expected(a0, L)
         out += b'\n'
     return bytes(out)
 
@@ -314,6 +336,38 @@ def array_truth_expected(decls, nargs):
         t = n != 0
         out += c(t) + c(not t) + f(t) + (b'1' if t else b'0') + f(t) + f(not t) + f(t) + (b'2' if t else b'0') + c(t) + c(t) + f(t) + b' '
     return bytes(out) + b'\n'
+
+
+CONST_BYTES = [201, 1, 255, 7, 0, 128, 127, 254, 2, 200, 65, 90]
+
+
+def constbytes_program():
+    """byte elements of tables in the const section (global const table, all-literal local const table, string viewed as
+    bytes, const parameter bound to each) widened to int: value, arithmetic, comparison, equality, index, truthiness"""
+    lit = ', '.join(str(b) for b in CONST_BYTES)
+    esc = ''.join('\\x%02x' % b for b in CONST_BYTES)
+    return ('const byte[] GT = [' + lit + '];\n'
+            'empty show(const byte[] p) { for (int i = 0; i < p.length; i += 1) { write(p[i] is int); write(\' \'); write(p[i] + 1); write(\' \'); '
+            'write(p[i] < 200); write(p[i] == 201); write(p[i] * 2 - p[i]); write(\' \'); if (p[i]) { write(\'T\'); } else { write(\'F\'); } '
+            'int[] q = [10, 20, 30, 40]; write(q[p[i] % 4]); int w = p[i]; write(w); write(\' \'); } writeln(); }\n'
+            'empty @is_you() {\n  const byte[] LT = [' + lit + '];\n  string s = "' + esc + '";\n'
+            '  show(GT); show(LT); show(s is byte[]); show(s); show("' + esc + '");\n'
+            '  for (int i = 0; i < GT.length; i += 1) { write(GT[i] is int); write(\' \'); write((LT[i] is int) + ((s is byte[])[i] is int)); write(\' \'); write(GT[i] > LT[(i + 1) % LT.length]); write(\' \'); }\n  writeln();\n}\n')
+
+
+def constbytes_expected():
+    f = lambda b: b'true' if b else b'false'       # noqa: E731
+    row = bytearray()
+    for b in CONST_BYTES:
+        row += str(b).encode() + b' ' + str(b + 1).encode() + b' ' + f(b < 200) + f(b == 201) + str(b).encode() + b' ' + (b'T' if b else b'F') + \
+            str([10, 20, 30, 40][b % 4]).encode() + str(b).encode() + b' '
+    row += b'\n'
+    out = bytes(row) * 5
+    last = bytearray()
+    n = len(CONST_BYTES)
+    for i, b in enumerate(CONST_BYTES):
+        last += str(b).encode() + b' ' + str(2 * b).encode() + b' ' + f(b > CONST_BYTES[(i + 1) % n]) + b' '
+    return out + bytes(last) + b'\n'
 
 
 STRING_LENGTHS = [0, 1, 2, 255, 256, 257, 511, 512, 768, 1024]
@@ -361,7 +415,7 @@ def run_shard(spec):
     args = [str(v) for v in vals]
     if spec['kind'] == 'arraytruth':
         src, decls = array_truth_program()
-        jobs = []
+        jobs = [('byte elements of const-section tables', constbytes_program(), constbytes_expected(), len(CONST_BYTES) * 50, [])]
         for nargs in (0, 1, 3):
             jobs.append((f'array truthiness with {nargs} arguments', src, array_truth_expected(decls, nargs), len(decls) * 11, [str(k) for k in range(nargs)]))
     elif spec['kind'] == 'literals':
